@@ -30,7 +30,7 @@ ASSUMPTIONS = ["ambiguous encodings (bool, integral floats for Discrete) are not
                "Discrete = Python int or numpy integer in [0, n)"]
 REQUIRED = ["C17:malformed-rejected-in-time", "C17:no-effect-on-reject", "C17:malformed-never-executed", "C17:allocation-denoted",
             "C17:target-reached", "C17:residual-in-cash"]
-REQUIRED_CATS = ["box", "discrete", "with-cash", "nr-contracts", "delay:1", "delay:2"]
+REQUIRED_CATS = ["per-contract-bounds", "second-episode", "box", "discrete", "with-cash", "nr-contracts", "delay:1", "delay:2"]
 REQUIRED_HITS = ["Broker.transact", "Broker.rebalance"]
 TECHNIQUE = "runtime monitoring with fault injection: malformed actions injected into episodes; Broker.transact hook proves nothing executed"
 LEVEL_TEXT = ("Fault enumeration over the kinds of malformed action x space type x delay, each injected at a random step of a real "
@@ -72,13 +72,27 @@ def case(ctx, i, tier):
     else:
         lo, hi = rng.choice([(0, 1), (-1, 1), (-0.5, 2)])
         scale = 1 if asw else 10
-        sp_ = BoxPortfolio(contracts, lo * scale, hi * scale, as_weights=asw)
-        valid = lambda: np.array([rng.uniform(max(lo, -0.3), min(hi, 0.4)) for _ in contracts]) * scale
+        per_contract = rng.random() < 0.4 and m >= 2
+        if per_contract:
+            # bounds that differ between contracts (arrays)
+            los = np.array([rng.choice([0.0, -1.0, -0.5]) for _ in contracts]) * scale
+            his = np.array([rng.choice([0.5, 1.0, 2.0]) for _ in contracts]) * scale
+            sp_ = BoxPortfolio(contracts, los, his, as_weights=asw)
+            ctx.cat("per-contract-bounds")
+        else:
+            los = np.full(m, lo * scale, dtype=float)
+            his = np.full(m, hi * scale, dtype=float)
+            sp_ = BoxPortfolio(contracts, lo * scale, hi * scale, as_weights=asw)
+        valid = lambda: np.array([rng.uniform(max(l, -0.3 * scale), min(h, 0.4 * scale)) for l, h in zip(los, his)])
         denote = lambda a: list(a)
-        one_hi = np.full(m, 0.1 * scale)
-        one_hi[rng.randrange(m)] = hi * scale + 1e-9 + abs(hi * scale) * 1e-12
-        one_lo = np.full(m, 0.1 * scale)
-        one_lo[rng.randrange(m)] = lo * scale - 1e-9
+        j_hi = rng.randrange(m)
+        one_hi = np.array([min(max(0.1 * scale, l), h) for l, h in zip(los, his)])
+        # just above ITS OWN upper bound (inside the loosest bound of the other contracts when bounds differ)
+        one_hi[j_hi] = his[j_hi] + (1e-9 + abs(his[j_hi]) * 1e-12 if not per_contract else 0.25 * scale)
+        j_lo = rng.randrange(m)
+        one_lo = np.array([min(max(0.1 * scale, l), h) for l, h in zip(los, his)])
+        one_lo[j_lo] = los[j_lo] - (1e-9 if not per_contract else 0.25 * scale)
+        lo, hi = float(los.min()) / scale, float(his.max()) / scale
         bads = [("above", np.full(m, hi * scale + 1.0)), ("below", np.full(m, lo * scale - 1.0)), ("one-above", one_hi),
                 ("one-below", one_lo), ("len+1", np.full(m + 1, 0.1)), ("len-1", np.full(max(m - 1, 0), 0.1)),
                 ("nan", np.array([np.nan] * m)), ("one-nan", np.where(np.arange(m) == rng.randrange(m), np.nan, 0.1)),
@@ -153,6 +167,25 @@ def case(ctx, i, tier):
             ctx.check("C17:residual-in-cash", abs(cash + spot_val + marg - post.nlv) <= 1e-9 * max(1.0, abs(cash) + abs(spot_val) + marg),
                       cash=cash, spot=spot_val, margins=marg, nlv=post.nlv)
             k += 1
+    # a second episode on the same environment: only what is submitted in it may be executed
+    # (the malformed / pending actions of the first episode are gone)
+    with ep.EpMonitor(sink) as mon2:
+        del sink.log[:]
+        env.reset()
+        acts2 = []
+        done = False
+        k2 = 0
+        while not done and k2 < 3:
+            a = valid()
+            acts2.append(a)
+            o, r, done, info = env.step(a)
+            src = acts2[k2 - d] if k2 - d >= 0 else None
+            al = dict(info["_rebalancing"].allocation)
+            want = {} if src is None else {c: w for c, w in zip(contracts, denote(src)) if not isinstance(c, Cash) and w != 0}
+            ctx.check("C17:allocation-denoted", al == want, episode=2, step=k2, got={c.symbol: v for c, v in al.items()},
+                      want={c.symbol: v for c, v in want.items()})
+            k2 += 1
+        ctx.cat("second-episode")
     if not rejected:
         ctx.check("C17:malformed-rejected-in-time", not (inj + d < k), never_rejected=True, injected=inj, delay=d, steps=k,
                   malformed=bad_name)
